@@ -219,7 +219,7 @@ def judge(seed, z_force=None):
                 return "stockholder weight outside [0,1]"
             if not np.allclose(wab, ra / (ra + rb + np.float32(bg)), rtol=rt):
                 return "weight is not interior/(interior+exterior+background)"
-            if bg == 0.0 and not np.allclose(wab + wba, 1.0, atol=1e-5):
+            if bg == 0.0 and not np.allclose(wab + wba, 1.0, rtol=0, atol=1e-5):
                 return "complementary weights do not sum to one"
         for bg in (0.0, 1e-5, 1e-2):
             w2 = StockholderWeight.from_arrays(els[:k], pos[:k], els[k:], pos[k:], background=bg).weights(pts)
